@@ -352,7 +352,125 @@ def all_trees(tier: str, rng: random.Random):  # noqa: ANN201
         yield {"parents": rng.choice(list(trees(n))), "kinds": [rng.choice(["ascope", "sscope"]) for _ in range(n)], "places": ["root"] + [rng.choice(["inline", "spawn", "plain"]) for _ in range(n - 1)]}
 
 
+def run_sync_root_around_loops(R: Recorder, case: dict[str, Any]) -> None:
+    """a program's entry point opens its root scope synchronously (one event loop is current, not running), records there and then
+    drives one or two event-loop runs inside the block (asyncio.run / a fresh loop's run_until_complete). The coroutines run in a
+    copy of the caller's context: their scopes nest in the root scope, their records outside any scope of their own land in the root."""
+    import warnings
+
+    from haiway import ctx
+    from haiway.types import MISSING as _M
+
+    del _M
+    Mx = metricsfam.Mx
+    concat = metricsfam.merge_fn("concat")
+    uid = itertools.count(1)
+    own: dict[str, list[int]] = {}
+    order: list[tuple[str, str | None]] = []  # (scope, parent) in creation order
+    seen: dict[str, dict[str, Any]] = {}
+    errors: list[str] = []
+
+    def rec(scope: str) -> None:
+        u = next(uid)
+        own.setdefault(scope, []).append(u)
+        try:
+            ctx.record(Mx(ids=(u,)), merge=concat)
+        except BaseException as exc:  # noqa: BLE001
+            errors.append(f"record in {scope} raised {exc!r}")
+
+    def done(name: str) -> Any:
+        def cb(metrics: Any) -> None:
+            try:
+                seen[name] = {"own": metricsfam.plain(metrics.read(Mx)), "merged": [metricsfam.plain(v) for v in metrics.metrics(merge=metricsfam.view_merge)]}
+            except BaseException as exc:  # noqa: BLE001
+                seen[name] = {"error": repr(exc)}
+        return cb
+
+    def scope(name: str, parent: str | None) -> Any:
+        order.append((name, parent))
+        return ctx.scope(name, completion=done(name))
+
+    async def worker(name: str, parent: str) -> None:
+        async with scope(name, parent):
+            rec(name)
+            await asyncio.sleep(0)
+            rec(name)
+
+    async def work(i: int, prepared: Any) -> None:
+        rec("root")
+        async with scope(f"a{i}", "root"):
+            rec(f"a{i}")
+            ctx.spawn(worker, f"w{i}", f"a{i}")
+            await asyncio.sleep(0)
+            rec(f"a{i}")
+        if prepared is not None:
+            async with prepared:
+                rec("prep")
+                with scope(f"p{i}", "prep"):
+                    rec(f"p{i}")
+        await worker(f"b{i}", "root")
+        for _ in range(4):
+            await asyncio.sleep(0)
+
+    outer = asyncio.new_event_loop()
+    asyncio.set_event_loop(outer)
+    try:
+        with warnings.catch_warnings():
+            warnings.simplefilter("ignore")
+            try:
+                with scope("root", None):
+                    rec("root")
+                    prepared = scope("prep", "root") if case.get("prepared") else None
+                    for i, how in enumerate(case["runs"]):
+                        if how == "asyncio.run":
+                            asyncio.run(work(i, prepared if i == 0 else None))
+                        else:
+                            inner = asyncio.new_event_loop()
+                            try:
+                                inner.run_until_complete(work(i, prepared if i == 0 else None))
+                            finally:
+                                inner.close()
+                        if case.get("restore_loop"):
+                            asyncio.set_event_loop(outer)
+                    rec("root")
+            except BaseException as exc:  # noqa: BLE001
+                errors.append(f"the program raised {exc!r}")
+            for _ in range(5):
+                outer.run_until_complete(asyncio.sleep(0))
+    finally:
+        outer.close()
+        asyncio.set_event_loop(None)
+
+    def merged_ids(name: str) -> tuple[int, ...]:
+        out = list(own.get(name, []))
+        for child, parent in order:
+            if parent == name:
+                out.extend(merged_ids(child))
+        return tuple(out)
+
+    R.case(case, nontrivial=True)
+    R.count("synchronous_root_scopes_around_event_loop_runs")
+    w = {"kind": "sync-root-around-loop-runs", "runs": len(case["runs"])}
+    R.monitor("never-raises", not errors, where={**w, "kind": "record-raised"}, detail=f"{errors}", case=case)
+    for name, _parent in order:
+        got = seen.get(name)
+        want_own = ("Mx", tuple(own.get(name, [])))
+        want_merged = [("Mx", merged_ids(name))]
+        if got is None:
+            R.monitor("merged-view", None)  # completion of that scope is C09's business
+            R.count("sync_root_scopes_without_completion")
+            continue
+        R.monitor("fold", got.get("own") == want_own, where={**w, "kind": "fold-differs", "scope": name if name in ("root", "prep") else name[0]}, detail=f"{name}: read(Mx) = {got.get('own')!r}, reference {want_own!r}; {got.get('error')}", case=case)
+        R.monitor("merged-view", got.get("merged") == want_merged, where={**w, "kind": "merged-view-differs", "scope": name if name in ("root", "prep") else name[0]},
+                  detail=f"{name}: metrics(merge=view) = {got.get('merged')!r}, reference (own records, then nested scopes {[(c, p) for c, p in order if p == name]} depth first in creation order) {want_merged!r}", case=case)
+
+
 def run(R: Recorder, tier: str, seed: int, shard: int, nshards: int) -> None:
+    if shard == 0:
+        for runs in (["asyncio.run"], ["new-loop"], ["asyncio.run", "asyncio.run"], ["new-loop", "asyncio.run"]):
+            for prepared in (False, True):
+                for restore in (False, True):
+                    run_sync_root_around_loops(R, {"sync_root": True, "runs": runs, "prepared": prepared, "restore_loop": restore})
     cap, extra = CAP[tier]
     R.flags["exhaustive_core"] = f"all trees <= 3 nodes x kinds x placements with seeded record layouts, schedules by DFS (cap {cap}, +{extra} random)"
     rngt = random.Random(f"C10/{seed}")
@@ -375,6 +493,9 @@ def run(R: Recorder, tier: str, seed: int, shard: int, nshards: int) -> None:
 
 
 def replay(R: Recorder, rec: dict[str, Any]) -> None:
+    if rec.get("sync_root"):
+        run_sync_root_around_loops(R, rec)
+        return
     ch = Chooser(rec["choices"], "first")
     out = run_once(rec["program"], ch)
     judge(R, rec["tree"], rec["program"], ch, out)
